@@ -79,65 +79,94 @@ def check(ctx):
     ctx.assume('child search results and evaluations are never +-VALUE_INFINITE (what R1 establishes inductively, plus C14 bounds)')
 
     # ---- R2 unit discipline in the formatter ---------------------------------------------
+    # For a won (lost) mate score the formatter must answer "mate " ("mate -") followed by ceil(plies/2) with
+    # plies = VALUE_MATE - score (VALUE_MATE + score); decided per case on normal forms, so nesting of ifs, named locals and
+    # conditional expressions do not matter.
+    from rules.norm import Norm
+    from rules.common import all_guards
     fmt = p.fn('engine::score2str')
     ctx.analysed(fmt)
+    vmate = p.val('engine::VALUE_MATE')
+    lo_win = vmate - p.val('engine::MAX_DEPTH')
     n_m = 0
-    for n in fmt.all_nodes():
-        if n['k'] == 'StringLiteral' and n.get('s', '').startswith('mate'):
+    for case, assume, lit, sign in (('won', {('ge', 'score', lo_win): True, ('le', 'score', -lo_win): False}, 'mate ', -1),
+                                    ('lost', {('ge', 'score', lo_win): False, ('le', 'score', -lo_win): True}, 'mate -', 1)):
+        nm = Norm(fmt, assume=assume)
+        feas = []
+        for r in [x for x in fmt.all_nodes() if x['k'] == 'ReturnStmt']:
+            vals = [(nm.cval(c), t) for c, t in all_guards(fmt, r)]
+            if any(v is None for v, t in vals):
+                raise AnalysisBroken('score2str: a return is governed by a condition the rule cannot decide for a %s mate score' % case)
+            if all(bool(v) == t for v, t in vals):
+                feas.append(r)
+        ok = len(feas) == 1
+        why = '%d returns are possible' % len(feas)
+        if ok:
             n_m += 1
-            stmt = n
-            for a in fmt.ancestors(n):
-                if a['k'] == 'ReturnStmt':
-                    stmt = a
-                    break
-            args = [kids(x)[-1] for x in walk(stmt) if x.get('callee', {}).get('n') == 'std::to_string']
-            ok = bool(args) and all(_has_ply_to_move(p, a) for a in args)
-            ctx.ob('C08.R2.mate-in-moves', 'score2str:%r' % n['s'], ok,
-                   'the number printed after %r is converted from plies to moves ((d+1)/2 or equivalent); '
-                   'VALUE_MATE -/+ score is a distance in plies' % n['s'], site=fmt.loc(n))
-    ctx.floor('C08.R2.mate-in-moves', n_m, 2, '"mate" literals in score2str')
+            e = kids(feas[0])[0]
+            lits = _chosen_literals(nm, e)
+            args = [kids(x)[-1] for x in walk(e) if x.get('callee', {}).get('n') == 'std::to_string']
+            args += _to_string_args_of_locals(fmt, nm, e)
+            ok = lits == [lit] and len(args) == 1
+            why = 'prints %s then %d number(s)' % (lits, len(args))
+            if ok:
+                ok, why = _half_plies(nm, args[0], sign, vmate)
+        ctx.ob('C08.R2.mate-in-moves', 'score2str:%s' % case, ok,
+               'a %s mate score is printed as %r followed by the distance in moves, (plies+1)/2 with plies = VALUE_MATE %s score — %s'
+               % (case, lit, '-' if sign < 0 else '+', why), site=fmt.loc(feas[0]) if feas else fmt.loc())
+    ctx.floor('C08.R2.mate-in-moves', n_m, 2, 'mate cases of score2str')
 
     # ---- R3 sibling agreement of the mate-distance adjustment --------------------------------
+    # Semantic form: between undo_move and the comparison with the accumulator, the child result x becomes
+    #   x          when x is not a mate score,   x-1  for a won mate score,   x+1  for a lost one
+    # decided by executing the (straight-line / if / small pure helper) statements in between on sample values.
+    from rules.norm import SymLin, Unknown
+    mate = p.val('engine::VALUE_MATE')
+    maxd = p.val('engine::MAX_DEPTH')
+    cases = [({'mate': False, 'pos': None}, 0, 'a score outside the mate range'), ({'mate': True, 'pos': True}, -1, 'a won mate score'),
+             ({'mate': True, 'pos': False}, 1, 'a lost mate score')]
     shapes = {}
     for fid in scc_f:
         f = p.funcs[fid]
-        adj = []
-        for n in f.all_nodes():
-            if n['k'] == 'IfStmt':
-                c = strip_casts(kids(n)[0]) if kids(n) else None
-                if c and c.get('callee', {}).get('n') == 'engine::is_mate':
-                    adj.append(n)
-        if len(adj) != 1:
-            ctx.ob('C08.R3.mate-adjust', short(f.name), False,
-                   '%s applies the mate-distance adjustment exactly once per searched move (found %d)'
-                   % (short(f.name), len(adj)), site=f.loc())
-            continue
-        a = adj[0]
-        var = strip_casts(kids(strip_casts(kids(a)[0]))[-1])
-        body = [x for x in walk(kids(a)[1]) if x['k'] == 'CompoundAssignOperator' and x.get('op') == '+=']
-        ok = False
-        shape = None
-        if len(body) == 1:
-            lhs, rhs = kids(body[0])
-            rhs = strip_casts(rhs)
-            if expr_key(lhs) == expr_key(var) and rhs['k'] == 'ConditionalOperator':
-                c, t, e = kids(rhs)
-                c = strip_casts(c)
-                if c['k'] == 'BinaryOperator' and c.get('op') == '>' and expr_key(kids(c)[0]) == expr_key(var) \
-                        and const_of(strip_casts(kids(c)[1])) == 0:
-                    shape = (const_of(strip_casts(t)), const_of(strip_casts(e)))
-                    ok = shape == (-1, 1)
-        shapes[fid] = shape
-        # ordering: after undo_move, before the comparison with the accumulator
         undo = [n for n, cfid, nm in f.calls() if nm == 'engine::Position::undo_move']
         cmpn = [x for x in f.all_nodes() if x['k'] == 'BinaryOperator' and x.get('op') == '>'
-                and expr_key(kids(x)[0]) == expr_key(var)
-                and strip_casts(kids(x)[1]).get('ref', {}).get('n') == 'bestValue']
-        ordered = bool(undo) and bool(cmpn) and all(f.cfg.node_dominates(u, a) for u in undo) \
-            and all(f.cfg.node_dominates(a, c) for c in cmpn)
-        ctx.ob('C08.R3.mate-adjust', short(f.name), ok and ordered,
-               'child mate scores move one ply toward zero (win: -1, loss: +1) after undo_move and before the best-value comparison',
-               site=f.loc(a), detail={'shape': shape})
+                and strip_casts(kids(x)[1]).get('ref', {}).get('n') == 'bestValue'
+                and strip_casts(kids(x)[0]).get('ref', {}).get('k') == 'Local']
+        ok = False
+        why = 'anchors not found'
+        site = f.loc()
+        if len(undo) >= 1 and len(cmpn) == 1:
+            var = strip_casts(kids(cmpn[0])[0])['ref']['n']
+            # the statements of the loop body between the last undo_move and the comparison
+            stmt_c = cmpn[0]
+            while f.parent(stmt_c) is not None and f.parent(stmt_c)['k'] != 'CompoundStmt':
+                stmt_c = f.parent(stmt_c)
+            block = f.parent(stmt_c)
+            u = [x for x in undo if f.inside(x, block)]
+            if block is not None and u:
+                stmt_u = u[-1]
+                while f.parent(stmt_u) is not block:
+                    stmt_u = f.parent(stmt_u)
+                sib = kids(block)
+                lo, hi = sib.index(stmt_u), sib.index(stmt_c)
+                between = sib[lo + 1:hi]
+                site = f.loc(between[0]) if between else f.loc(stmt_c)
+                bad = []
+                try:
+                    for facts, want, what in cases:
+                        binds = {var: ('x', 0)}
+                        SymLin(p, facts, mate - maxd).run(f, between, binds, track={var})
+                        if binds[var] != ('x', want):
+                            bad.append((what, binds[var], want))
+                    ok = not bad and lo < hi
+                    why = 'decided symbolically for the three cases' if ok else \
+                        '%s x becomes %s, must become x%+d' % (bad[0][0], 'x%+d' % bad[0][1][1] if bad[0][1][0] == 'x' else bad[0][1][1], bad[0][2])
+                except Unknown as e:
+                    raise AnalysisBroken('%s: the code between undo_move and the best-value comparison depends on `%s`, which the rule cannot evaluate' % (f.name, e))
+        shapes[fid] = ok
+        ctx.ob('C08.R3.mate-adjust', short(f.name), ok,
+               'after undo_move and before the best-value comparison child mate scores move one ply toward zero (win: -1, loss: +1) and '
+               'other scores are unchanged — %s' % why, site=site)
         # empty list => lost_in(0) if in check else draw
         ok2 = False
         for n in f.all_nodes():
@@ -238,17 +267,70 @@ def check(ctx):
     ctx.note('not decided: that a printed mate distance is forced or minimal (needs a game-tree solver)')
 
 
-def _has_ply_to_move(p, e, depth=0):
-    """does expression e halve a ply count: x/2, x>>1 (possibly (x+1)/2, x/2 + x%2) or call a helper that does"""
+def _chosen_literals(nm, e):
+    """string literals that end up in the value of e, with conditional expressions decided by the normaliser"""
+    out = []
+
+    def go(x):
+        x = nm.strip(x)
+        if x is None:
+            return
+        if x['k'] == 'StringLiteral':
+            out.append(x.get('s', ''))
+            return
+        if x['k'] == 'ConditionalOperator':
+            c, a, b = kids(x)
+            cv = nm.cval(c)
+            if cv is None:
+                go(a)
+                go(b)
+            else:
+                go(a if cv else b)
+            return
+        if (x.get('ref') or {}).get('k') == 'Local':
+            d = nm.resolve(x)
+            if d is not x:
+                go(d)
+            return
+        if x.get('callee', {}).get('n') == 'std::to_string':
+            return
+        for c in kids(x):
+            go(c)
+    go(e)
+    return out
+
+
+def _to_string_args_of_locals(f, nm, e):
+    """to_string(...) calls hidden behind string locals used in e"""
+    out = []
     for x in walk(e):
-        if x['k'] == 'BinaryOperator' and x.get('op') == '/' and const_of(strip_casts(kids(x)[1])) == 2:
-            return True
-        if x['k'] == 'BinaryOperator' and x.get('op') == '>>' and const_of(strip_casts(kids(x)[1])) == 1:
-            return True
-        c = x.get('callee')
-        if c and c['fid'] in p.funcs and c['n'].startswith('engine::') and depth < 2:
-            g = p.funcs[c['fid']]
-            for r in g.all_nodes():
-                if r['k'] == 'ReturnStmt' and kids(r) and _has_ply_to_move(p, kids(r)[0], depth + 1):
-                    return True
-    return False
+        r = x.get('ref') or {}
+        if r.get('k') == 'Local' and 'string' in (x.get('t') or ''):
+            d = nm.resolve(x)
+            if d is not x:
+                out += [kids(y)[-1] for y in walk(d) if y.get('callee', {}).get('n') == 'std::to_string']
+    return out
+
+
+def _half_plies(nm, arg, sign, vmate):
+    """arg == (VALUE_MATE + sign*score + 1) / 2  (also >> 1, or n/2 + n%2 with n the ply count)"""
+    m = nm.resolve(arg)
+    ks = kids(m)
+    want = ({'score': sign}, vmate + 1)
+    if m['k'] == 'BinaryOperator' and (m.get('op'), nm.cval(ks[1])) in (('/', 2), ('>>', 1)):
+        lin = nm.linear(ks[0])
+        if lin == want:
+            return True, 'numerator %s' % (lin,)
+        return False, 'the halved quantity is %s, not plies + 1 = %s' % (lin, want)
+    if m['k'] == 'BinaryOperator' and m.get('op') == '+':
+        a, b = [nm.resolve(x) for x in ks]
+        for x, y in ((a, b), (b, a)):
+            if x['k'] == 'BinaryOperator' and (x.get('op'), nm.cval(kids(x)[1])) == ('/', 2) and \
+                    y['k'] == 'BinaryOperator' and (y.get('op'), nm.cval(kids(y)[1])) == ('%', 2):
+                l1, l2 = nm.linear(kids(x)[0]), nm.linear(kids(y)[0])
+                if l1 == l2 == ({'score': sign}, vmate):
+                    return True, 'n/2 + n%2'
+    lin = nm.linear(m)
+    return False, 'the printed number is %s: a distance in plies, not halved' % (lin if lin else nm.s(m))
+
+
